@@ -3,8 +3,9 @@
 set -e
 cd "$(dirname "$0")/harness"
 export GOFLAGS=-mod=mod GOPROXY=off GOSUMDB=off GOTOOLCHAIN=local
-GO=/root/go/pkg/mod/golang.org/toolchain@v0.0.1-go1.25.0.linux-amd64/bin/go
-[ -x "$GO" ] || GO=go1.26.8
+GO=/usr/local/bin/go1.26.8
+[ -x "$GO" ] || GO=/opt/veriftools/go1.26.8/bin/go
+[ -x "$GO" ] || GO=/root/go/pkg/mod/golang.org/toolchain@v0.0.1-go1.25.0.linux-amd64/bin/go
 mkdir -p ../.run
 $GO test -c -tags verif -o ../.run/warm.test . 
 $GO test -c -race -tags verif -o ../.run/warm.race.test .
